@@ -7,6 +7,6 @@ os.makedirs(dst, exist_ok=True)
 shutil.copy(f"{src}/patch.diff", dst); shutil.copy(f"{src}/demo.py", dst)
 m = json.load(open(f"{src}/meta.json"))
 m.update({"property": pid, "confirmed": "demo.py exits 0 on the pinned tree and non-zero with patch.diff applied (tools/try_mutant.sh); patch applies with git apply",
-          "detected_by_check": caught, "check_run": f"./check {pid} --tier quick with the patch applied to /repo, then reverted", "check_note": note})
+          "detected_by_check": caught, "check_run": f"./check {pid} --tier quick against a scratch worktree of /repo HEAD with the patch applied (PYTHONPATH), worktree removed afterwards", "check_note": note})
 json.dump(m, open(f"{dst}/meta.json", "w"), indent=1)
 print("kept", dst)
